@@ -13,6 +13,8 @@ pub mod shape;
 pub mod suite_bytes;
 pub mod suite_emplace;
 pub mod suite_ops;
+pub mod suite_io;
+pub mod suite_io_gen;
 
 // ---------------------------------------------------------------------------------------------
 // PRNG, hex
@@ -306,6 +308,11 @@ pub trait TypeOps: Sync {
     fn default_in_place(&self, bytes: &mut [u8]) -> Option<Result<(), Error>>;
     /// `from_mut_bytes` (must succeed) then the operation
     fn edit(&self, bytes: &mut [u8], op: &Op) -> Result<String, Error>;
+    fn io_send(&self, inits: &[D], max: usize, script: &[suite_io::Ev]) -> String;
+    fn io_recv(&self, stream: &[u8], max: usize, script: &[suite_io::Ev], nrecv: usize) -> String;
+    fn aio_send(&self, inits: &[D], max: usize, script: &[suite_io::Ev]) -> String;
+    fn aio_recv(&self, stream: &[u8], max: usize, script: &[suite_io::Ev], nrecv: usize) -> String;
+    fn aio_pair(&self, inits: &[D], max: usize, cap: usize, wchunk: usize, rchunk: usize, pend: &[bool], schedule: &str) -> String;
 }
 pub struct Ops<T: ?Sized> {
     pub name: &'static str,
@@ -367,6 +374,11 @@ impl<T: Flat + Walk + DynTarget + Editable + ?Sized> TypeOps for Ops<T> {
         let v = T::from_mut_bytes(bytes)?;
         Ok(v.assign_in_place(de::<T>(d)).map(|_| ()))
     }
+    fn io_send(&self, inits: &[D], max: usize, script: &[suite_io::Ev]) -> String { suite_io::io_send::<T>(inits, max, script) }
+    fn io_recv(&self, stream: &[u8], max: usize, script: &[suite_io::Ev], nrecv: usize) -> String { suite_io::io_recv::<T>(stream, max, script, nrecv) }
+    fn aio_send(&self, inits: &[D], max: usize, script: &[suite_io::Ev]) -> String { suite_io::aio_send::<T>(inits, max, script) }
+    fn aio_recv(&self, stream: &[u8], max: usize, script: &[suite_io::Ev], nrecv: usize) -> String { suite_io::aio_recv::<T>(stream, max, script, nrecv) }
+    fn aio_pair(&self, inits: &[D], max: usize, cap: usize, wchunk: usize, rchunk: usize, pend: &[bool], schedule: &str) -> String { suite_io::aio_pair::<T>(inits, max, cap, wchunk, rchunk, pend, schedule) }
     fn edit(&self, bytes: &mut [u8], op: &Op) -> Result<String, Error> {
         if let (Some(f), Op::PushSlice(_) | Op::Resize(..)) = (self.clone_ops, op) {
             T::validate(bytes)?;
